@@ -427,7 +427,7 @@ CHECKS["C18"] = {
             "busy responses of 1 B..256 KiB, handler release point {before Shutdown is called, right after a shutdown hook fired, 60 ms after the hook fired, after the wait}, hooks {none, fast, 50 ms + fast, longer than the wait}; then a dial attempt, a second Shutdown and a Shutdown of an engine that never ran. "
             "Non-trivial = at least one busy connection whose handler returns after shutdown began together with another connection; distinct by FNV-64 of the plan.",
     "assumptions": [
-        "'already received' is counted only for requests whose handler was entered before Shutdown was called (kernel backlog and the keep-alive race are not counted)",
+        "'already received' is counted for requests whose handler was entered before Shutdown was called, and for a request sent on a connection that the server had accepted (its OnConnect callback had been entered) before Shutdown was called; connections still in the kernel backlog and the keep-alive race are not counted",
         "liveness is checked as bounded response: Shutdown returns within ExitWaitTimeout + 2 s; hooks are started; handlers released after the wait expired are not asserted on",
         "when Shutdown returns before its deadline, no request received before the call may still be inside its handler (server-side timestamps, no slack)",
         "idle keep-alive connections are not required to be closed by Shutdown (the standard transport leaves them to the idle timeout)",
